@@ -15,6 +15,7 @@ from .model import AnalysisError, FunctionInfo
 from .sym import (FALSE, NONE, TRUE, Evaluator, Frame, Term, Unsupported, is_private_helper, satisfiable, show, subst, subterms, sym, t_and, t_not)
 
 MAX_PATHS = 20000
+API_ITERATORS_NAMES = ("get_node_iterator", "get_branch_iterator")
 
 
 class Event:
@@ -92,6 +93,7 @@ class PathEnumerator:
         self.localdefs: Dict[Tuple[str, str], ast.FunctionDef] = {}
         self._inline_depth = 0
         self._inline_stack: List[str] = []
+        self._unpacking_stmt = False
         self.inline_private = inline_private        # statement-level calls of private helpers are run in place
         from .normalize import Normalizer
         nz = getattr(ev.model, "_normalizer", None)
@@ -311,6 +313,7 @@ class PathEnumerator:
             p.events.append(Event("localdef", st))
             if isinstance(st, ast.FunctionDef):
                 self.localdefs[(fr.fn.qualname, st.name)] = st
+                self.ev.localdefs[st.name] = st
             return [p]
         if isinstance(st, ast.Delete):
             p.events.append(Event("effect", st, ("const", ast.unparse(st))))
@@ -332,6 +335,7 @@ class PathEnumerator:
             return None
         if any(isinstance(a, ast.Starred) for a in v.args) or any(k.arg is None for k in v.keywords):
             return None
+        self._unpacking_stmt = isinstance(st, ast.Assign) and len(st.targets) == 1 and isinstance(st.targets[0], (ast.Tuple, ast.List))
         d, info, self_term, self_cls = None, None, None, None
         if isinstance(v.func, ast.Name):
             if p.env.get(v.func.id) == ("localdef", v.func.id) and (fr.fn.qualname, v.func.id) in self.localdefs:
@@ -340,12 +344,16 @@ class PathEnumerator:
                 tgt = self.ev.model.lookup_symbol(fr.module, v.func.id)
                 if isinstance(tgt, FunctionInfo) and is_private_helper(tgt):
                     d, info = tgt.node, tgt
+                elif isinstance(tgt, FunctionInfo) and tgt.kind == "function" and tgt.module is fr.fn.module and tgt is not fr.fn and self._single_use(tgt, fr):
+                    # a function that exists for this one caller is a piece of it (split for readability)
+                    d, info = tgt.node, tgt
                 elif isinstance(tgt, FunctionInfo) and tgt.kind == "function" and tgt.module is fr.fn.module and tgt is not fr.fn \
                         and isinstance(st, (ast.Assign, ast.AnnAssign)) and self._extended_here(st, fr):
                     # ``c = other_builder(...)`` followed by ``c.add(...)``: this function continues building what the other one started;
                     # the other builder's steps are part of this one's
                     d, info = tgt.node, tgt
-        elif isinstance(v.func, ast.Attribute) and self.inline_private and v.func.attr.startswith("_") and not v.func.attr.startswith("__"):
+        elif isinstance(v.func, ast.Attribute) and self.inline_private and ((v.func.attr.startswith("_") and not v.func.attr.startswith("__"))
+                                                                              or self._single_use_name(v.func.attr, fr)):
             try:
                 base = self.ev.expr(v.func.value, self._frame(fr, p))
             except Unsupported:
@@ -353,7 +361,7 @@ class PathEnumerator:
             c = self.ev.model.maybe_cls(base[1]) if base[0] == "cls" else self.ev.type_of(base)
             if c is not None:
                 fs = c.resolve_all(v.func.attr)
-                if len(fs) == 1 and is_private_helper(fs[0]) and "abstractmethod" not in fs[0].decorators:
+                if len(fs) == 1 and (is_private_helper(fs[0]) or self._single_use(fs[0], fr)) and "abstractmethod" not in fs[0].decorators:
                     d, info = fs[0].node, fs[0]
                     if info.kind == "method" and base[0] != "cls":
                         self_term, self_cls = base, c
@@ -374,6 +382,48 @@ class PathEnumerator:
         if d.args.vararg or d.args.kwarg or any(isinstance(n, (ast.Yield, ast.YieldFrom, ast.Nonlocal)) for n in ast.walk(d)):
             return None
         return v, d, info, self_term, self_cls
+
+    def _call_sites(self, name: str) -> int:
+        cache = self.ev.model.__dict__.setdefault("_call_site_counts", None)
+        if cache is None:
+            cache = {}
+            for g in self.ev.model.all_functions():
+                for n in ast.walk(g.node):
+                    if isinstance(n, ast.Call):
+                        nm = n.func.attr if isinstance(n.func, ast.Attribute) else (n.func.id if isinstance(n.func, ast.Name) else None)
+                        if nm:
+                            cache[nm] = cache.get(nm, 0) + 1
+                    elif isinstance(n, (ast.Attribute, ast.Name)) and isinstance(getattr(n, "ctx", None), ast.Load):
+                        # a bare reference (passed as a callback) counts as a use as well
+                        nm = n.attr if isinstance(n, ast.Attribute) else n.id
+                        cache["&" + nm] = cache.get("&" + nm, 0) + 1
+            self.ev.model._call_site_counts = cache
+        return cache.get(name, 0)
+
+    def _single_use_name(self, name: str, fr: Frame) -> bool:
+        if name.startswith("__") or name in ("copy", "add", "construct", "extend", "append", "get", "update"):
+            return False
+        defs = [g for g in self.ev.model.all_functions() if g.name == name]
+        return len(defs) == 1 and self._single_use(defs[0], fr)
+
+    def _single_use(self, g: FunctionInfo, fr: Frame) -> bool:
+        """defined once under this name, called at exactly one place in the package (here), never passed around, not part of an interface --
+        and its result is taken apart right at the call (``a, b = f(..)``): the decide / apply split of one function"""
+        if not self._unpacking_stmt:
+            return False
+        if g.name.startswith("__") or g.kind in ("property", "setter") or "abstractmethod" in g.decorators:
+            return False
+        if g.cls is not None and any(g.name in k.methods for k in self.ev.model.subclasses(g.cls)):
+            return False
+        if g.cls is not None and any(g.name in k.methods for k in g.cls.mro() if k is not g.cls):
+            return False
+        if len([x for x in self.ev.model.all_functions() if x.name == g.name]) != 1:
+            return False
+        if g.name in API_ITERATORS_NAMES or g.qualname in self.no_inline or g.qualname in self.ev.opaque:
+            return False
+        calls = self._call_sites(g.name)
+        refs = self._call_sites("&" + g.name)
+        return calls == 1 and refs <= 1      # the call itself contains one load of the name
 
     def _extended_here(self, st: ast.stmt, fr: Frame) -> bool:
         tg = st.targets[0] if isinstance(st, ast.Assign) else st.target
